@@ -29,6 +29,9 @@ def main():
     ap.add_argument("--demo")
     ap.add_argument("--tier", default="quick")
     a = ap.parse_args()
+    import fcntl
+    lock = open("/tmp/seedwt-check.lock", "w")
+    fcntl.flock(lock, fcntl.LOCK_EX)           # one seeded run at a time: the worktree is shared
     if not os.path.isdir(WT):
         print(sh(f"git -C /repo worktree add --detach {WT} HEAD -q").stdout)
     sh(f"git -C {WT} checkout -q --detach $(git -C /repo rev-parse HEAD) && git -C {WT} checkout -- . && git -C {WT} clean -fdq -e target")
